@@ -65,7 +65,7 @@ theorem parseTail_marshal {σ : Schema} {O : Oracles} {m : Msg} {t : TailSpec}
       · exact h
     have hnn : (m.get cs!"payload").isNull = false := by
       cases hv : m.get cs!"payload" <;> simp_all [WVal.isNull, WVal.isBytes]
-    have hmode : payloadMode t σ.k (σ.marshal m) = true := by
+    have hmode : payloadMode σ.k (σ.marshal m) = true := by
       unfold payloadMode
       rw [hlen, hg0]
       simp only [List.length_cons, List.length_nil, List.getD_cons_zero]
@@ -94,7 +94,13 @@ theorem parseTail_marshal {σ : Schema} {O : Oracles} {m : Msg} {t : TailSpec}
       · simp only [hp, hn]
         cases hv : m.get cs!"enc_serializer" <;> simp_all [WVal.isNull]
       · simp [hp, hn]
+    have e4 : encTripleGate (m.get cs!"enc_algo") (m.get cs!"enc_key") (m.get cs!"enc_serializer") = .ok () := by
+      unfold encTripleGate
+      rcases s3 with ⟨a, b, c⟩ | ⟨_, a⟩
+      · simp [a, b, c, pure, Except.pure]
+      · simp [a, pure, Except.pure]
     rw [e1, e2, e3]
+    simp only [bind, Except.bind, e4]
     have ha : m.get cs!"args" = .null := by cases hv : m.get cs!"args" <;> simp_all [WVal.isNull]
     have hk : m.get cs!"kwargs" = .null := by cases hv : m.get cs!"kwargs" <;> simp_all [WVal.isNull]
     simp only [tailMsg, ha, hk]
@@ -113,7 +119,7 @@ theorem parseTail_marshal {σ : Schema} {O : Oracles} {m : Msg} {t : TailSpec}
       · rw [hpn] at a; simp [WVal.isNull] at a
     obtain ⟨ea, ek, es⟩ := henc
     -- in every remaining case: not payload mode, and args / kwargs read back as they are
-    suffices h : payloadMode t σ.k (σ.marshal m) = false ∧
+    suffices h : payloadMode σ.k (σ.marshal m) = false ∧
         argsPart t σ.k (σ.marshal m) = .ok (m.get cs!"args") ∧
         kwargsPart t σ.k (σ.marshal m) = .ok (m.get cs!"kwargs") by
       obtain ⟨hmode, ha, hk⟩ := h
